@@ -4,121 +4,241 @@ package main
 
 import (
 	"go/token"
+	"go/types"
 	"strings"
 
 	"golang.org/x/tools/go/ssa"
 )
 
-func runC19F5b(c *Ctx) {
-	h := c.fn("proxy", "httpProxyErrorHandler")
-	if h == nil {
-		return
+// c19hasTimeoutMethod: t is net.Error or another interface that offers Timeout() (the test `err.(interface{ Timeout() bool })`).
+func c19hasTimeoutMethod(t types.Type) bool {
+	if typeStr(t) == "net.Error" {
+		return true
 	}
-	var errParam *ssa.Parameter
-	for _, p := range h.Params {
-		if typeStr(p.Type()) == "error" {
-			errParam = p
-		}
+	if p, ok := t.(*types.Pointer); ok { // errors.As(err, &ne): the asserted type is behind a pointer
+		t = p.Elem()
 	}
-	if errParam == nil {
-		return
-	}
-	// the definition(s) of the 504 status
-	n := 0
-	eachInstr(h, func(i ssa.Instruction) {
-		cc := callCommon(i)
-		if cc == nil || !cc.IsInvoke() || cc.Method.Name() != "WriteHeader" || len(cc.Args) != 1 {
-			return
-		}
-		for _, d := range defsOf(cc.Args[0]) {
-			k, ok := constInt(d.Val)
-			if !ok || k != 504 || d.Block == nil {
-				continue
+	if it, ok := t.Underlying().(*types.Interface); ok {
+		for k := 0; k < it.NumMethods(); k++ {
+			if it.Method(k).Name() == "Timeout" {
+				return true
 			}
-			n++
-			extra := ""
-			for _, ft := range factsAt(d.Block) {
-				// allowed facts: the net.Error assertion's ok and Timeout()
-				if call, isC := ft.Cond.(*ssa.Call); isC && call.Call.IsInvoke() && call.Call.Method.Name() == "Timeout" {
-					continue
-				}
-				if e, isE := ft.Cond.(*ssa.Extract); isE {
-					if ta, isTA := e.Tuple.(*ssa.TypeAssert); isTA && typeStr(ta.AssertedType) == "net.Error" {
-						continue
-					}
-				}
-				if call, isC := ft.Cond.(*ssa.Call); isC && calleeName(&call.Call) == "errors.As" {
-					continue
-				}
-				// any other condition on err that had to be false/true first
-				usesErr := derives(ft.Cond, func(v ssa.Value) bool { return v == errParam })
-				if call, isC := ft.Cond.(*ssa.Call); isC {
-					for _, a := range call.Call.Args {
-						if stripIface(a) == errParam || a == errParam {
-							usesErr = true
+		}
+	}
+	return false
+}
+
+// c19timeoutFact: the fact says "the error reports Timeout()".
+func c19timeoutFact(ft Fact) bool {
+	call, ok := ft.Cond.(*ssa.Call)
+	if !ok || !ft.Truth {
+		return false
+	}
+	if call.Call.IsInvoke() {
+		return call.Call.Method.Name() == "Timeout" && c19hasTimeoutMethod(call.Call.Value.Type())
+	}
+	return calleeName(&call.Call) == "os.IsTimeout"
+}
+
+// sentinels a timeout error can never equal/wrap: testing for them before the timeout test changes nothing
+var c19disjointSentinels = map[string]bool{"context.Canceled": true, "io.EOF": true, "io.ErrUnexpectedEOF": true, "net/http.ErrAbortHandler": true}
+
+func c19errGlobal(v ssa.Value) (string, bool) {
+	if u, ok := stripIface(v).(*ssa.UnOp); ok && u.Op == token.MUL {
+		if g, ok := u.X.(*ssa.Global); ok && g.Pkg != nil && typeStr(c19elem(g.Type())) == "error" {
+			return g.Pkg.Pkg.Path() + "." + g.Name(), true
+		}
+	}
+	return "", false
+}
+
+// c19harmlessErrTest: cond is a test of the error that no timeout error can satisfy (comparison with nil or with a
+// sentinel disjoint from timeouts, directly, through errors.Is, or inside a repository predicate that does only that).
+func c19harmlessErrTest(cond ssa.Value, depth int) bool {
+	var refs []ssa.Value
+	switch x := cond.(type) {
+	case *ssa.BinOp:
+		if (x.Op == token.EQL || x.Op == token.NEQ) && (isNilConst(x.X) || isNilConst(x.Y)) {
+			return true
+		}
+		refs = []ssa.Value{x.X, x.Y}
+	case *ssa.Call:
+		sc := x.Call.StaticCallee()
+		if sc != nil && isRepoFn(sc) && len(sc.Blocks) > 0 && depth < 2 {
+			// a predicate of the repository: every comparison it makes must be harmless, and it must not look at the
+			// error in any other way
+			n, ok := 0, true
+			for _, f := range withAnon(sc) {
+				eachInstr(f, func(i ssa.Instruction) {
+					switch y := i.(type) {
+					case *ssa.TypeAssert:
+						ok = false
+					case *ssa.BinOp:
+						if y.Op == token.EQL || y.Op == token.NEQ {
+							if _, isErr := y.X.Type().Underlying().(*types.Interface); isErr {
+								n++
+								ok = ok && c19harmlessErrTest(y, depth+1)
+							}
+						}
+					case *ssa.Call:
+						if y.Call.IsInvoke() {
+							ok = false
+						} else if name := calleeName(&y.Call); name == "errors.Is" || (y.Call.StaticCallee() != nil && isRepoFn(y.Call.StaticCallee())) {
+							n++
+							ok = ok && c19harmlessErrTest(y, depth+1)
+						} else if name == "errors.As" || name == "os.IsTimeout" {
+							ok = false
 						}
 					}
+				})
+			}
+			return ok && n > 0
+		}
+		if calleeName(&x.Call) != "errors.Is" {
+			return false
+		}
+		refs = x.Call.Args
+	default:
+		return false
+	}
+	good, bad := 0, 0
+	for _, a := range refs {
+		if name, ok := c19errGlobal(a); ok {
+			if c19disjointSentinels[name] {
+				good++
+			} else {
+				bad++
+			}
+		}
+	}
+	return good > 0 && bad == 0
+}
+
+// runC19F5handler: h is an error handler installed in a reverse proxy. Wherever its region writes the status, the
+// origins of the status are examined: 504 must be selected where the error says Timeout(), and no other test of the
+// error may have had to come out the other way first.
+func runC19F5handler(c *Ctx, h *ssa.Function) {
+	fl := &c19flow{}
+	isErr := func(v ssa.Value) bool { p, ok := v.(*ssa.Parameter); return ok && typeStr(p.Type()) == "error" }
+	found, n := false, 0
+	seen := map[string]bool{}
+	for _, f := range c.region(h) {
+		eachInstr(f, func(i ssa.Instruction) {
+			cc := callCommon(i)
+			if cc == nil {
+				return
+			}
+			var status ssa.Value
+			switch {
+			case cc.IsInvoke() && cc.Method.Name() == "WriteHeader" && len(cc.Args) == 1:
+				status = cc.Args[0]
+			case !cc.IsInvoke() && calleeName(cc) == "net/http.Error" && len(cc.Args) == 3:
+				status = cc.Args[2]
+			default:
+				return
+			}
+			for _, o := range fl.origins(status) {
+				k, ok := constInt(o.root)
+				if !ok || k != 504 || len(o.fields) != 0 {
+					continue
 				}
-				if usesErr {
-					// sentinels a timeout error can never equal/wrap are harmless before the timeout test
-					disjoint := false
-					refs := []ssa.Value{}
+				n++
+				extra := ""
+				timeout := false
+				for _, ft := range c19expand(o.facts) {
+					if c19timeoutFact(ft) {
+						timeout = true
+						continue
+					}
+					// allowed: the assertion / errors.As that yields the value Timeout() is asked of
+					if e, isE := ft.Cond.(*ssa.Extract); isE {
+						if ta, isTA := e.Tuple.(*ssa.TypeAssert); isTA && c19hasTimeoutMethod(ta.AssertedType) {
+							continue
+						}
+					}
 					if call, isC := ft.Cond.(*ssa.Call); isC {
-						refs = append(refs, call.Call.Args...)
+						if name := calleeName(&call.Call); name == "errors.As" {
+							continue
+						} else if call.Call.IsInvoke() && call.Call.Method.Name() == "Timeout" {
+							continue // Timeout() == false on another edge of the same test
+						}
 					}
-					if b, isB := ft.Cond.(*ssa.BinOp); isB {
-						refs = append(refs, b.X, b.Y)
-					}
-					for _, a := range refs {
-						if u, isU := stripIface(a).(*ssa.UnOp); isU {
-							if g, isG := u.X.(*ssa.Global); isG {
-								switch g.Pkg.Pkg.Path() + "." + g.Name() {
-								case "context.Canceled", "io.EOF", "io.ErrUnexpectedEOF", "net/http.ErrAbortHandler":
-									disjoint = true
-								}
+					// any other condition on the error that had to be false/true first
+					usesErr := derives(ft.Cond, isErr)
+					if call, isC := ft.Cond.(*ssa.Call); isC && !usesErr {
+						for _, a := range call.Call.Args {
+							if derives(a, isErr) {
+								usesErr = true
 							}
 						}
 					}
-					if !disjoint {
-						extra = shortPath(ft.Cond)
-						if b, isB := ft.Cond.(*ssa.BinOp); isB {
-							extra = shortPath(b.X) + " " + b.Op.String() + " " + shortPath(b.Y)
-						}
-						if strings.TrimSpace(extra) == "" {
-							extra = "an earlier comparison of err"
-						}
+					if !usesErr || c19harmlessErrTest(ft.Cond, 0) {
+						continue
+					}
+					extra = shortPath(ft.Cond)
+					if b, isB := ft.Cond.(*ssa.BinOp); isB {
+						extra = shortPath(b.X) + " " + b.Op.String() + " " + shortPath(b.Y)
+					}
+					if strings.TrimSpace(extra) == "" {
+						extra = "an earlier comparison of err"
 					}
 				}
+				found = found || timeout
+				key := fnKey(h) + "|timeout classified before any other test of the error"
+				if extra == "" && seen[key] {
+					continue
+				}
+				seen[key] = true
+				c.check("C19.F5", key, i.Pos(), extra == "",
+					"the 504 edge is reached only after another test of the error ("+extra+") came out the other way; Go's timeout errors also satisfy errors.Is(err, context.DeadlineExceeded) / os.ErrDeadlineExceeded, so a test placed before the net.Error Timeout() check classifies upstream timeouts as something else (e.g. 499) and the configured response-header timeout no longer yields 504")
 			}
-			c.check("C19.F5", "proxy.httpProxyErrorHandler|timeout classified before any other test of the error", d.Pos, extra == "",
-				"the 504 edge is reached only after another test of the error ("+extra+") came out the other way; Go's timeout errors also satisfy errors.Is(err, context.DeadlineExceeded) / os.ErrDeadlineExceeded, so a test placed before the net.Error Timeout() check classifies upstream timeouts as something else (e.g. 499) and the configured response-header timeout no longer yields 504")
-		}
-	})
-	c.atLeast("C19.F5", "definitions of the 504 status", n, 1)
+		})
+	}
+	c.check("C19.F5", fnKey(h)+"|timeout => 504", h.Pos(), found, "the error handler must answer 504 Gateway Timeout on the edge where the error is a net.Error with Timeout() == true")
+	c.atLeast("C19.F5", "definitions of the 504 status in "+fnKey(h), n, 1)
 }
+
+// D1: no deadline is attached to the request handed to the upstream exchange.
 func runC19D1(c *Ctx) {
 	n := 0
+	timedCtx := func(v ssa.Value) bool {
+		return derives(v, func(v ssa.Value) bool {
+			_, ok := isCallTo(v, "context.WithTimeout", "context.WithDeadline", "context.WithTimeoutCause", "context.WithDeadlineCause")
+			return ok
+		})
+	}
 	for _, f := range c.AllFns {
-		if rootPkg(f) != c.spkg("proxy") || strings.Contains(fnKey(f), "rpc") {
+		if rootPkg(f) != c.spkg("proxy") {
 			continue
 		}
 		eachInstr(f, func(i ssa.Instruction) {
 			cc := callCommon(i)
-			if cc == nil || calleeName(cc) != "(*net/http.Request).WithContext" || len(cc.Args) < 2 {
+			if cc == nil {
+				return
+			}
+			var ctx ssa.Value
+			switch calleeName(cc) {
+			case "(*net/http.Request).WithContext", "(*net/http.Request).Clone":
+				if len(cc.Args) >= 2 {
+					ctx = cc.Args[1]
+				}
+			case "net/http.NewRequestWithContext":
+				if len(cc.Args) >= 1 {
+					ctx = cc.Args[0]
+				}
+			}
+			if ctx == nil {
 				return
 			}
 			n++
-			timed := derives(cc.Args[1], func(v ssa.Value) bool {
-				_, ok := isCallTo(v, "context.WithTimeout", "context.WithDeadline", "context.WithTimeoutCause", "context.WithDeadlineCause")
-				return ok
-			})
-			c.check("C19.D1", fnKey(f)+"|no deadline on the whole upstream exchange", i.Pos(), !timed,
+			c.check("C19.D1", fnKey(f)+"|no deadline on the whole upstream exchange", i.Pos(), !timedCtx(ctx),
 				"a context deadline attached to the proxied request is never lifted once the response headers arrive: an upstream that answers in time but streams its body longer than the deadline is cut off mid-response; the phases are bounded by the dial and response-header timeouts of the transport only")
 		})
 	}
-	c.ob("C19.D1", "proxy|request contexts without deadline", token.NoPos, OK, "scanned "+itoa(n)+" WithContext calls in package proxy (HTTP path)")
+	c.ob("C19.D1", "proxy|request contexts without deadline", token.NoPos, OK, "scanned "+itoa(n)+" request-context bindings in package proxy")
 }
 
+// T4: no http.Transport of the program caps the connections per host.
 func runC19T4(c *Ctx) {
 	n := 0
 	for _, f := range c.AllFns {
@@ -148,5 +268,3 @@ func runC19T4(c *Ctx) {
 	c.atLeast("C19.T4", "transports with a response-header timeout (scope check)", n, 1)
 	c.ob("C19.T4", "transport|no MaxConnsPerHost", token.NoPos, OK, "scanned all http.Transport field stores")
 }
-
-// ---- C20.U1 / C20.N1 -------------------------------------------------------------------------------------------
